@@ -17,6 +17,7 @@ from .._exceptions import (
     ConnectionNotAvailable,
     LocalProtocolError,
     RemoteProtocolError,
+    WriteError,
     map_exceptions,
 )
 from .._models import Origin, Request, Response
@@ -481,8 +482,10 @@ class HTTP2Connection(ConnectionInterface):
 
             try:
                 self._network_stream.write(data_to_send, timeout)
-            except Exception as exc:  # pragma: nocover
-                # If we get a network error we should:
+            except BaseException as exc:  # pragma: nocover
+                # If we get a network error, or the write is interrupted part-way
+                # through (eg. the request is cancelled), the frames that were taken
+                # from the state machine are lost or half written. We should:
                 #
                 # 1. Save the exception and just raise it immediately on any future write.
                 #    (For example, this means that a single write timeout or disconnect will
@@ -490,7 +493,10 @@ class HTTP2Connection(ConnectionInterface):
                 #    sequential timeouts.)
                 # 2. Mark the connection as errored, so that we don't accept any other
                 #    incoming requests.
-                self._write_exception = exc
+                if isinstance(exc, Exception):
+                    self._write_exception = exc
+                else:
+                    self._write_exception = WriteError("Write was interrupted")
                 self._connection_error = True
                 raise exc
 
